@@ -137,6 +137,11 @@ func replayMwVec(r *Run, v mwVec, rng *rand.Rand, concurrent bool, evals *atomic
 	}
 	rt.MustHandle("GET", "/ri/", h, iopts...)
 	rt.MustHandle("GET", "mw.example/rh/{x}", h, iopts[1:]...)
+	// routes of other shapes (an infix catch-all with its suffix in one node, with a parameter behind it, a parameter, a
+	// trailing catch-all), registered like /r and updated like /r further down
+	for _, sh := range mwShapedRoutes {
+		rt.MustHandle("GET", sh[0], h, ropts[1:]...)
+	}
 	if sharedOpt != nil {
 		rt.MustHandle("GET", "/shared", h, sharedOpt)
 	}
@@ -241,7 +246,19 @@ func replayMwVec(r *Run, v mwVec, rng *rand.Rand, concurrent bool, evals *atomic
 		return
 	}
 	check("route after Update", v.Updated, tracedRequest(rt, "GET", "/r"))
+	for _, sh := range mwShapedRoutes {
+		check("route "+sh[0], v.Chains[0], tracedRequest(rt, "GET", sh[1]))
+		for k := 0; k < 2; k++ { // twice: the second update starts from an updated node
+			if _, err := rt.Update("GET", sh[0], h, fox.WithMiddleware(ums...)); err != nil {
+				r.violation(key("Update "+sh[0]), map[string]any{"config": desc, "prescribed": "update accepted", "obtained": err.Error()})
+				return
+			}
+			check("route "+sh[0]+" after Update", v.Updated, tracedRequest(rt, "GET", sh[1]))
+		}
+	}
 }
+
+var mwShapedRoutes = [][2]string{{"/files/*{p}/raw", "/files/a/b/raw"}, {"/img/*{n}/thumb/{s}", "/img/a/thumb/9"}, {"/u/{id}", "/u/7"}, {"/cat/*{rest}", "/cat/a/b"}}
 
 func nz(s []string) []string {
 	if s == nil {
